@@ -94,6 +94,8 @@ func runDebounce(line string) *result {
 
 		return r
 	}
+	bad := len(r.fails) > 0 // phase 1 (serialised calls) is judged on its own, whatever the bursts find
+	bursts := debounceBursts(r, pool, deb, w, min(2*callers, runtime.GOMAXPROCS(0)), 150)
 	if !guarded(r, pool, "shutdown", func() { pool.Shutdown() }) {
 		return r
 	}
@@ -108,9 +110,10 @@ func runDebounce(line string) *result {
 			made++
 		} else {
 			id, _ := strconv.Atoi(strings.Fields(e)[1])
-			if id <= last || id > made || len(r.fails) > 0 {
+			if id <= last || id > made || bad {
 				a = "reject x"
-				if len(r.fails) == 0 {
+				if !bad {
+					bad = true
 					r.fail("debounce", fmt.Sprintf("workerFunc of call %d executed after call %d's (calls made so far: %d)", id, last, made),
 						map[string]string{"api": "workerpool.DebounceFunc", "effect": "execution-order"})
 				}
@@ -122,7 +125,7 @@ func runDebounce(line string) *result {
 		r.lines = append(r.lines, [2]string{e, a})
 	}
 	end := "accept"
-	if last != made || len(r.fails) > 0 {
+	if last != made || bad {
 		end = "reject dend"
 		if last != made {
 			r.fail("debounce", fmt.Sprintf("the latest call (%d) was never executed; last executed: %d", made, last),
@@ -130,6 +133,13 @@ func runDebounce(line string) *result {
 		}
 	}
 	r.lines = append(r.lines, [2]string{"dend", end})
+	for _, b := range bursts {
+		a := "accept"
+		if b[1] != 1 {
+			a = "reject dburst"
+		}
+		r.lines = append(r.lines, [2]string{fmt.Sprintf("dburst %d %d", b[0], b[1]), a})
+	}
 	if n := overlaps.Load(); n > 0 {
 		r.fail("debounce", fmt.Sprintf("%d workerFunc executions overlapped", n), map[string]string{"api": "workerpool.DebounceFunc", "effect": "overlap"})
 	}
@@ -138,4 +148,65 @@ func runDebounce(line string) *result {
 	r.nontriv = fmt.Sprintf("%s|%d", line, execd)
 
 	return r
+}
+
+// debounceBursts: CONCURRENT callers.  All workers are blocked by gate tasks; n goroutines then call the debounce function
+// at the same moment (no harness mutex: their lastInvocation.Add(1) race) and return — none of their tasks has started —;
+// then the gates open and the pool runs dry.  Every task makes its checks when all n calls have been made, so only the
+// latest invocation passes them (Lean: C16_debounce_exec_is_latest — an execution is always the latest invocation made
+// so far) and it is never dropped (C16_debounce): EXACTLY ONE workerFunc of the burst is executed.  Invocation numbers
+// that are handed out twice or stored out of order show up as 0 or 2 executions.  Returns (n, executions) per burst.
+func debounceBursts(r *result, pool *workerpool.WorkerPool, deb func(func(), ...string), w, n, rounds int) [][2]int {
+	var out [][2]int
+	if n < 2 {
+		n = 2
+	}
+	for round := 0; round < rounds && len(r.fails) == 0; round++ {
+		gate := make(chan struct{})
+		var blocked atomic.Int32
+		for i := 0; i < w; i++ {
+			pool.Submit(func() { blocked.Add(1); <-gate })
+		}
+		if !waitFor(bound, func() bool { return int(blocked.Load()) == w }) {
+			close(gate)
+			r.fail("termination", "gate tasks of a debounce burst did not start", classifyPool(pool, "tasks-start"))
+
+			return out
+		}
+		var execs, ready atomic.Int32
+		start := make(chan struct{})
+		var wg sync.WaitGroup
+		for c := 0; c < n; c++ {
+			wg.Add(1)
+			go func() {
+				defer wg.Done()
+				<-start
+				// spin barrier: the callers enter the debounce function within nanoseconds of each other
+				ready.Add(1)
+				for spins := 0; int(ready.Load()) < n; spins++ {
+					if spins > 2000 {
+						runtime.Gosched()
+					}
+				}
+				deb(func() { execs.Add(1) })
+			}()
+		}
+		close(start)
+		ok := within(bound, wg.Wait)
+		close(gate)
+		if !ok || !within(bound, pool.PendingTasksCounter.WaitIsZero) {
+			r.fail("termination", "debounce burst did not finish", classifyPool(pool, "zero"))
+
+			return out
+		}
+		k := int(execs.Load())
+		out = append(out, [2]int{n, k})
+		if k != 1 {
+			r.fail("debounce", fmt.Sprintf("burst of %d concurrent calls, all made before any of their tasks started: %d workerFuncs executed (exactly the latest must be)", n, k),
+				map[string]string{"api": "workerpool.DebounceFunc", "effect": "burst-executions"})
+		}
+	}
+	r.counts["debounce-bursts"] += len(out)
+
+	return out
 }
